@@ -659,7 +659,7 @@ static HsWorld* make_world(const HsCfg& cfg) {
 //  * when a run is spoilt and a generation other than the required one is involved, the requirement becomes undetermined.
 struct StaModel { int run_gen, last; bool bad; int expect; };
 struct HsModel { StaModel st[2]; bool ap_known; };
-struct HS { Crypto::WPA2Decrypter d; HsModel m; std::string obs; };
+struct HS { Crypto::WPA2Decrypter d; HsModel m; std::string obs, ck; };   // ck = canonical implementation state after the last step
 
 static void model_taint(StaModel& sm, int gen) { if (gen != 0 && sm.expect != 0 && sm.expect != gen) sm.expect = 3; }
 static void model_message(StaModel& sm, int g, int k, bool ap_known) {
@@ -673,29 +673,40 @@ static void model_message(StaModel& sm, int g, int k, bool ap_known) {
     } else { sm.bad = true; model_taint(sm, g); }
 }
 
+static void put_addr(std::string& o, const HWAddress<6>& a) { o.append(hex(a.begin(), 6)); }
 static std::string canon_impl(const Crypto::WPA2Decrypter& d) {
     std::string o = "H";
+    o.reserve(256);
     for (auto& kv : d.capturer_.handshakes_) {
-        o += kv.first.first.to_string() + "-" + kv.first.second.to_string() + "[";
-        for (auto& e : kv.second)
-            o += str(e.replay_counter()) + "." + str((int)e.key_mic()) + str((int)e.secure()) + str((int)e.install()) + str((int)e.key_ack()) + "." +
-                 str(fnv(e.nonce(), 32) & 0xffff) + ",";
-        o += "]";
+        put_addr(o, kv.first.first); o += '-'; put_addr(o, kv.first.second); o += '[';
+        for (auto& e : kv.second) {
+            o += std::to_string(e.replay_counter()); o += '.';
+            o += char('0' + e.key_mic()); o += char('0' + e.secure()); o += char('0' + e.install()); o += char('0' + e.key_ack()); o += '.';
+            o += std::to_string(fnv(e.nonce(), 32) & 0xffff); o += ',';
+        }
+        o += ']';
     }
-    o += "C" + str(d.capturer_.completed_handshakes_.size()) + "A";
-    for (auto& kv : d.aps_) o += kv.first.to_string() + "=" + kv.second.ssid() + ";";
-    o += "P";
-    for (auto& kv : d.pmks_) o += kv.first + ";";
-    o += "K";
-    for (auto& kv : d.keys_) o += kv.first.first.to_string() + "-" + kv.first.second.to_string() + "=" + str(fnv(kv.second.get_ptk().data(), kv.second.get_ptk().size())) + (kv.second.uses_ccmp() ? "c" : "t") + ";";
+    o += 'C'; o += std::to_string(d.capturer_.completed_handshakes_.size()); o += 'A';
+    for (auto& kv : d.aps_) { put_addr(o, kv.first); o += '='; o += kv.second.ssid(); o += ';'; }
+    o += 'P';
+    for (auto& kv : d.pmks_) { o += kv.first; o += ';'; }
+    o += 'K';
+    for (auto& kv : d.keys_) {
+        put_addr(o, kv.first.first); o += '-'; put_addr(o, kv.first.second); o += '=';
+        o += std::to_string(fnv(kv.second.get_ptk().data(), kv.second.get_ptk().size())); o += kv.second.uses_ccmp() ? 'c' : 't'; o += ';';
+    }
     return o;
 }
 static std::string canon_model(const HsModel& m) {
     std::string o;
-    for (int k = 0; k < 2; ++k) o += str(m.st[k].run_gen) + str(m.st[k].last) + (m.st[k].bad ? "B" : "-") + "E" + str(m.st[k].expect);
-    return o + (m.ap_known ? "A" : "-");
+    // a spoilt run never advances: only "was it complete" still matters of its last message number
+    for (int k = 0; k < 2; ++k) { o += char('0' + m.st[k].run_gen); o += char('0' + (m.st[k].bad ? (m.st[k].last == 4 ? 4 : 0) : m.st[k].last)); o += m.st[k].bad ? 'B' : '-'; o += 'E'; o += char('0' + m.st[k].expect); }
+    o += m.ap_known ? 'A' : '-';
+    return o;
 }
 
+// hot-path counters (flushed into the report once per configuration)
+static uint64_t n_probe_calls = 0, n_probe_verdicts = 0, n_probe_ok = 0, n_keys_required = 0, n_cb_hs = 0, n_cb_ap = 0;
 static std::map<std::string, std::string> g_probe_cache;   // canonical implementation state -> probe outcome codes
 static std::string hs_step(HS& s, const int& ev) {
     HsWorld& w = *W;
@@ -709,20 +720,20 @@ static std::string hs_step(HS& s, const int& ev) {
     if (o.ret == 3) return "harness:event-frame-did-not-parse|" + w.names[ev];
     if (o.ret == 2) return "handshake:libtins-exception-on-event|" + o.exc + " at " + w.names[ev];
     if (msg != 7 && o.ret == 1) return "handshake:unprotected-frame-reported-decrypted|" + w.names[ev];
-    if (g_cb_hs) R.count("callback_handshake_captured", g_cb_hs);
-    if (g_cb_ap) R.count("callback_ap_found", g_cb_ap);
+    n_cb_hs += g_cb_hs; n_cb_ap += g_cb_ap;
     // ---- invariants, judged after every transition on every station's frames (each generation, both directions) and a frame
     // under a foreign key.  Decrypting a data frame does not change the decrypter, so the probe outcomes are a function of the
     // implementation state: they are computed once per distinct canonical implementation state and looked up afterwards
     // (the same equivalence the state merging relies on; the verdict below depends on the model state and is evaluated every time).
-    std::string ck = canon_impl(s.d);
+    s.ck = canon_impl(s.d);
+    const std::string& ck = s.ck;
     std::map<std::string, std::string>::iterator hit = g_probe_cache.find(ck);
     if (hit == g_probe_cache.end()) {
         std::string codes;
         for (size_t pi = 0; pi < w.probes.size(); ++pi) {
             const Probe& pr = w.probes[pi];
             Out p = run_decrypt(s.d, pr.frame, &w.st[pr.sta].plain);
-            R.count("probe_decrypt_calls");
+            ++n_probe_calls;
             bool same = p.snap && p.rec == w.st[pr.sta].plain;
             codes += char('0' + p.ret + (p.prot ? 4 : 0) + (same ? 8 : 0));
         }
@@ -733,7 +744,7 @@ static std::string hs_step(HS& s, const int& ev) {
         const Probe& pr = w.probes[pi];
         int code = hit->second[pi] - '0', ret = code & 3;
         bool prot = (code & 4) != 0, same = (code & 8) != 0;
-        R.count("probe_verdicts");
+        ++n_probe_verdicts;
         obs += str(ret);
         if (ret == 3) return "harness:probe-did-not-parse|";
         if (pr.gen == 0) {
@@ -742,7 +753,7 @@ static std::string hs_step(HS& s, const int& ev) {
         }
         if (ret == 1) {
             if (prot || !same) return "handshake:decrypted-output-differs-from-plaintext|station " + str(pr.sta) + " generation " + str(pr.gen);
-            R.count("probe_decrypted_ok");
+            ++n_probe_ok;
         } else if (!prot) return "handshake:not-decrypted-but-protected-flag-cleared|";
         if (s.m.st[pr.sta].expect == pr.gen && ret != 1)
             return std::string("handshake:") + (pr.gen == 2 ? "frame-under-latest-handshake-keys-not-decrypted" : "valid-history-data-not-decrypted") + "|station " +
@@ -760,7 +771,7 @@ static std::string hs_step(HS& s, const int& ev) {
             if (it->second.get_ptk().size() < n || !std::equal(ref.begin(), ref.begin() + n, it->second.get_ptk().begin()))
                 return "handshake:stored-ptk-differs-from-reference|station " + str(t) + " generation " + str(e);
             if (it->second.uses_ccmp() != w.cfg.ccmp) return "handshake:stored-cipher-differs|station " + str(t);
-            R.count("states_with_keys_required");
+            ++n_keys_required;
         }
     }
     s.obs = obs + (s.d.get_keys().empty() ? "k" : "K") + str(s.d.get_keys().size());
@@ -791,12 +802,12 @@ static void run_hs(int index, const std::string* rp = 0, std::string* rerr = 0) 
     ex.context = "mode=hs tier=" + A.tier + " cfg=" + str(index);
     ex.op_str = [](const int& e) { return W->names[e]; };
     ex.init = []() {
-        HS s{W->base, HsModel(), ""};
+        HS s{W->base, HsModel(), "", ""};
         for (int k = 0; k < 2; ++k) { s.m.st[k].run_gen = s.m.st[k].last = s.m.st[k].expect = 0; s.m.st[k].bad = false; }
         s.m.ap_known = W->cfg.apreg == 1;
         return s;
     };
-    ex.canon = [](const HS& s) { return canon_impl(s.d) + "|" + canon_model(s.m); };
+    ex.canon = [](const HS& s) { return (s.ck.empty() ? canon_impl(s.d) : s.ck) + "|" + canon_model(s.m); };
     ex.step = hs_step;
     ex.nontrivial = [](const HS& s) { return !s.d.keys_.empty() || s.m.st[0].last >= 2 || s.m.st[1].last >= 2; };
     ex.observe = [](const HS& s) { return s.obs; };
@@ -804,6 +815,10 @@ static void run_hs(int index, const std::string* rp = 0, std::string* rerr = 0) 
     if (rp) { *rerr = ex.replay(*rp); return; }
     bool ok = ex.run();
     R.count("handshake_configurations");
+    R.count("probe_decrypt_calls", n_probe_calls); R.count("probe_verdicts", n_probe_verdicts); R.count("probe_decrypted_ok", n_probe_ok);
+    R.count("transitions_with_keys_required", n_keys_required); R.count("callback_handshake_captured", n_cb_hs); R.count("callback_ap_found", n_cb_ap);
+    R.count("distinct_implementation_states", g_probe_cache.size());
+    n_probe_calls = n_probe_verdicts = n_probe_ok = n_keys_required = n_cb_hs = n_cb_ap = 0;
     if (ok && !R.flags.count("depth_bounded")) R.count("handshake_configurations_to_fixpoint");
     if (index == 0) {
         std::string al;
